@@ -529,9 +529,17 @@ def _make_init(cls: t.Type[PaneBase], fields: t.Sequence[Field]):
 
     sig = Signature(params, return_annotation=None)
 
+    def _init_factory_defaults(self: PaneBase):
+        # fields with init=False never come from arguments or data,
+        # but a default factory still has to be called for each instance
+        for f in self.__pane_info__.fields:
+            if not f.init and f.default_factory is not None:
+                object.__setattr__(self, f.name, f.default_factory())
+
     def __init__(self: PaneBase, *args: t.Any, **kwargs: t.Any):
         from_dict = kwargs.pop('_pane_from_dict', None)
         if from_dict is not None:
+            _init_factory_defaults(self)
             for (k, v) in from_dict.items():
                 object.__setattr__(self, k, v)
             object.__setattr__(self, PANE_SET_FIELDS, set(from_dict.keys()))
@@ -547,6 +555,7 @@ def _make_init(cls: t.Type[PaneBase], fields: t.Sequence[Field]):
 
         set_fields: t.Set[str] = set()
 
+        _init_factory_defaults(self)
         for f in self.__pane_info__.fields:
             if not f.init:
                 continue
